@@ -441,10 +441,11 @@ theorem split_converts_first_unit (m : Mode) (ue : UnitHdr × List Entry) (rest 
     (h : runSplit m (ue :: rest) ras = .converted parts us)
     (hd : Distinct (ue :: rest))
     (hdepth : ∀ e, e ∈ ue.2 → 0 < e.depth)
-    (hroot : ∀ e, e ∈ ue.2 → ue.1.base + e.off ≠ ue.1.rootOff) :
-    ∃ out : List Off, parts = [out] ∧
+    (hroot : ∀ e, e ∈ ue.2 → ue.1.base + e.off ≠ ue.1.rootOff)
+    (hinside : ∀ e, e ∈ ue.2 → ue.1.inBounds e.off = true) :
+    ∃ out : List Off, parts = [out.filter ue.1.containsOff] ∧
       (∀ x, x ∈ out ↔ Closure (records (ue :: rest)) (rootReqs (ue :: rest) ras) x) ∧
-      us = [filterLinks (ue.1.rootOff :: out) ue.1 [] ue.2] ∧
+      us = [filterLinks (ue.1.rootOff :: out.filter ue.1.containsOff) ue.1 [] ue.2] ∧
       (∀ offs usAll, runSplitUnfiltered (ue :: rest) ras = .converted offs usAll →
         us = usAll.map (fun l => l.filter (fun p => out.contains p.1))) := by
   simp only [runSplit] at h
@@ -456,7 +457,7 @@ theorem split_converts_first_unit (m : Mode) (ue : UnitHdr × List Entry) (rest 
     | ok out =>
       rw [hr] at h
       simp only at h
-      cases hc : convertUnits (ue.1.rootOff :: out) [ue] ras with
+      cases hc : convertUnits (ue.1.rootOff :: out.filter ue.1.containsOff) [ue] ras with
       | error e => rw [hc] at h; cases h
       | ok us' =>
         rw [hc] at h
@@ -469,16 +470,18 @@ theorem split_converts_first_unit (m : Mode) (ue : UnitHdr × List Entry) (rest 
           obtain ⟨_, C2, _, _, _, _⟩ := closure_props m (ue :: rest) ras d out hb hr hd
           -- membership in the id table for offsets of first-unit entries
           have hids : ∀ e, e ∈ ue.2 →
-              ((ue.1.rootOff :: out).contains (ue.1.base + e.off) = out.contains (ue.1.base + e.off)) := by
+              ((ue.1.rootOff :: out.filter ue.1.containsOff).contains (ue.1.base + e.off) =
+                out.contains (ue.1.base + e.off)) := by
             intro e he
-            have := hroot e he
-            simp [this]
+            have h1 := hroot e he
+            have h2 := containsOff_entry ue.1 e.off (hinside e he)
+            simp [h1, h2]
           have hwp : ∀ ep, ep ∈ withParents [] ue.2 → ep.1 ∈ ue.2 := by
             intro ep hep
             have := withParents_fst ue.2 []
             rw [← this]; exact List.mem_map_of_mem hep
-          have hlinks : us' = [filterLinks (ue.1.rootOff :: out) ue.1 [] ue.2] := by
-            have := convertUnits_links (ue.1.rootOff :: out) [ue] ras us' ?_ hc
+          have hlinks : us' = [filterLinks (ue.1.rootOff :: out.filter ue.1.containsOff) ue.1 [] ue.2] := by
+            have := convertUnits_links (ue.1.rootOff :: out.filter ue.1.containsOff) [ue] ras us' ?_ hc
             · simpa using this
             · intro ue' hue'
               simp only [List.mem_singleton] at hue'
@@ -493,8 +496,13 @@ theorem split_converts_first_unit (m : Mode) (ue : UnitHdr × List Entry) (rest 
               have hkept : ue'.1.base + ep.1.off ∈ out := by simpa using hin
               have hpar : ue'.1.base + p.off ∈ out :=
                 C2 ⟨ue'.1, ep.1, ep.2⟩ hrec hkept (ue'.1.base + p.off) (by simp only [Rec.parentOff, hp'])
-              simp only [List.contains_cons, Bool.or_eq_true]
-              right; simpa using hpar
+              obtain h1 | ⟨e', he', ho, _⟩ := withParents_parent ue'.2 [] ep.1 p (by
+                have : ep = (ep.1, some p) := by rw [← hp']
+                rw [← this]; exact hep)
+              · cases h1
+              · rw [ho] at hpar ⊢
+                rw [hids e' he']
+                simpa using hpar
           refine ⟨out, hp.symm, hE, hlinks, ?_⟩
           intro offs usAll hu
           simp only [runSplitUnfiltered] at hu
@@ -540,6 +548,97 @@ theorem split_converts_first_unit (m : Mode) (ue : UnitHdr × List Entry) (rest 
   | err e => rw [hb] at h; cases h
   | panic w => rw [hb] at h; cases h
   | diverge => rw [hb] at h; cases h
+
+/-- **`split_write_never_fails`** — "writing never fails for a missing reference", split path: on a
+well-formed split section (any number of units, any required set, any root attributes, both
+modes) the filtered split conversion never ends in `writeErr`: since fix aa527e6 only offsets
+inside the converted unit are reserved, every reserved offset is a DIE of that unit and is added,
+so every reference that the conversion resolved is resolved by `write` too (former finding C19-4;
+`split_foreign_ref_regression`). -/
+theorem split_write_never_fails (m : Mode) (ue : UnitHdr × List Entry) (rest : List (UnitHdr × List Entry))
+    (ras : List (List AttrRef)) (wf : WellFormed (ue :: rest)) :
+    runSplit m (ue :: rest) ras ≠ .writeErr := by
+  simp only [runSplit]
+  cases hb : buildDeps m (ue :: rest) ras with
+  | ok d =>
+    simp only
+    cases hr : getReachable d with
+    | ok out =>
+      simp only
+      cases hc : convertUnits (ue.1.rootOff :: out.filter ue.1.containsOff) [ue] ras with
+      | error e => simp
+      | ok us =>
+        simp only
+        have hE := closure_exact m (ue :: rest) ras d out hb hr wf.distinct
+        -- unfold the successful conversion of the one unit
+        rw [convertUnits] at hc
+        cases hra : firstErr ((ras.headD []).map (convAttr (ue.1.rootOff :: out.filter ue.1.containsOff) ue.1)) with
+        | some e => rw [hra] at hc; cases hc
+        | none =>
+          rw [hra] at hc
+          simp only at hc
+          cases hce : convertEntries (ue.1.rootOff :: out.filter ue.1.containsOff) ue.1
+              (if ue.2.isEmpty then [] else [(0, ue.1.rootOff)]) ue.2 [] with
+          | error e => rw [hce] at hc; cases hc
+          | ok r =>
+            rw [hce] at hc
+            simp only [convertUnits, Except.ok.injEq] at hc
+            subst hc
+            obtain ⟨_, hres⟩ := convertEntries_ok _ _ _ _ _ _ hce
+            -- everything in the id table is written
+            have hwritten : ∀ t, t ∈ ue.1.rootOff :: out.filter ue.1.containsOff →
+                (ue.1.rootOff :: r.map (·.1)).contains t = true := by
+              intro t ht
+              simp only [List.contains_cons, Bool.or_eq_true, beq_iff_eq]
+              rcases List.mem_cons.1 ht with h1 | h1
+              · exact Or.inl h1
+              · right
+                obtain ⟨hto, htc⟩ := List.mem_filter.1 h1
+                obtain ⟨rc, hrec, hoff⟩ := ((hE t).1 hto).valid'
+                obtain ⟨ve, hve, hu, he⟩ := records_mem (ue :: rest) rc hrec
+                have hin := wf.inside ve hve rc.e he
+                rcases List.mem_cons.1 hve with h2 | h2
+                · subst h2
+                  have ht' : ve.1.base + rc.e.off = t := by rw [← hoff, Rec.off, hu]
+                  have := (hres rc.e he (by rw [ht']; simpa using ht)).1
+                  rw [ht'] at this
+                  simpa using this
+                · -- a DIE of a later unit lies beyond the first unit
+                  have hasc := wf.ascending
+                  simp only [List.map_cons, List.pairwise_cons] at hasc
+                  have h3 := hasc.1 ve.1 (List.mem_map_of_mem h2)
+                  have h4 := ((UnitHdr.containsOff_iff ue.1 t).1 htc).2
+                  have h5 : ve.1.base ≤ t := by
+                    rw [← hoff, Rec.off, hu]; exact Nat.le_add_right _ _
+                  exact absurd (Nat.lt_of_lt_of_le h4 (Nat.le_trans h3 h5)) (Nat.lt_irrefl _)
+            have hattr : ∀ a, convAttr (ue.1.rootOff :: out.filter ue.1.containsOff) ue.1 a = none →
+                ∀ t, t ∈ attrTargets ue.1 a → (ue.1.rootOff :: r.map (·.1)).contains t = true :=
+              fun a ha t ht => hwritten t (convAttr_targets _ _ a ha t (attrTargets_subset _ a t ht))
+            have hok : splitWriteOk (ue.1.rootOff :: out.filter ue.1.containsOff) ue.1 ue.2 (ras.headD [])
+                ([r].headD []) = true := by
+              simp only [splitWriteOk, List.headD_cons, Bool.and_eq_true, List.all_eq_true]
+              constructor
+              · intro t ht
+                obtain ⟨a, ha, hta⟩ := List.mem_flatMap.1 ht
+                exact hattr a ((firstErr_none.1 hra) _ (List.mem_map.2 ⟨a, ha, rfl⟩)) t hta
+              · intro e he
+                by_cases hrs : (ue.1.rootOff :: out.filter ue.1.containsOff).contains (ue.1.base + e.off) = true
+                · simp only [hrs, Bool.not_true, Bool.false_or, List.all_eq_true]
+                  intro t ht
+                  obtain ⟨a, ha, hta⟩ := List.mem_flatMap.1 ht
+                  exact hattr a ((firstErr_none.1 (hres e he hrs).2) _ (List.mem_map.2 ⟨a, ha, rfl⟩)) t hta
+                · have : (ue.1.rootOff :: out.filter ue.1.containsOff).contains (ue.1.base + e.off) = false := by
+                    simpa using hrs
+                  rw [this]; simp
+            have hok' : splitWriteOk (ue.1.rootOff :: out.filter ue.1.containsOff) ue.1 ue.2 (ras.head?.getD []) r = true := by
+              simpa using hok
+            simp [hok']
+    | err e => simp
+    | panic w => simp
+    | diverge => simp
+  | err e => simp
+  | panic w => simp
+  | diverge => simp
 
 /-! ## the tag tables regenerated from the Rust source -/
 
@@ -748,12 +847,18 @@ def exSplit : List (UnitHdr × List Entry) :=
 
 /-- the filtered split conversion keeps `31` of the first unit (referenced from the second) and
 nothing of the second unit; seed C19-d (taking the last unit) would yield `65` instead -/
-example : runSplit .debug exSplit = .converted [[31, 65]] [[(31, some 11)]] := by decide
+example : runSplit .debug exSplit = .converted [[31]] [[(31, some 11)]] := by decide
+example : WellFormed exSplit := ⟨by unfold Distinct; decide, by decide, by decide⟩
 example : runSplitUnfiltered exSplit = .converted [[15, 23, 31]] [[(15, some 11), (23, some 15), (31, some 11)]] := by
   decide
-/-- recorded finding C19-4: the first unit references a DIE of the second by section offset — the
-reference resolves (the offset is reserved) but the DIE is never added: `write()` fails -/
-example : runSplit .debug [ (⟨0, 11, 12⟩, [ ⟨15, 1, false, 0x2e, false, [.infoRef 65], true⟩ ]),
-    (⟨50, 11, 12⟩, [ ⟨15, 1, false, 0x13, false, [], false⟩ ]) ] = .writeErr := by decide
+/-- former finding C19-4 (repaired by aa527e6): the first unit references a DIE of the second by
+section offset — the offset is no longer reserved, so the conversion reports the reference (as the
+unfiltered `convert_split` does) instead of `write()` failing -/
+def exSplitForeignRef : List (UnitHdr × List Entry) := [ (⟨0, 11, 12⟩, [ ⟨15, 1, false, 0x2e, false, [.infoRef 65], true⟩ ]),
+    (⟨50, 11, 12⟩, [ ⟨15, 1, false, 0x13, false, [], false⟩ ]) ]
+
+theorem split_foreign_ref_regression :
+    runSplit .debug exSplitForeignRef = .convErr .invalidDebugInfoRef ∧
+    runSplitUnfiltered exSplitForeignRef = .convErr .invalidDebugInfoRef := by decide
 
 end Gimli.Props.C19
